@@ -129,6 +129,62 @@ void h_pic_alloc(void)
     VCANARY();
 }
 #endif
+
+/* ---- write mapping on a buffer that comes from the REAL allocator (C02: "a writable mapping is granted only while the memory
+ * area has a single owner"): fresh buffer => granted; a second owner taken the way ubuf_block_mem_alloc_from_pic / _from_sound
+ * does it (get_shared + ubuf_mem_shared_use, no dup involved) => refused; owner gone => granted again.  (The pic_mem_write unit
+ * states the same from a hand-built structure; this one also sees whatever the allocator initialises.) */
+static int call_ctl(struct ubuf *ubuf, int command, ...)
+{
+    va_list args; va_start(args, command);
+#ifdef SOUND
+    int ret = ubuf_sound_mem_control(ubuf, command, args);
+#else
+    int ret = ubuf_pic_mem_control(ubuf, command, args);
+#endif
+    va_end(args);
+    return ret;
+}
+void h_alloc_write(void)
+{
+    VIN(uint8_t, sz);
+    VASSUME(sz >= 1 && sz <= 16);
+    for (int p = 0; p < 4; p++) { g_names[p][0] = (char)('a' + p); g_names[p][1] = 0; g_mps[p] = &g_mp[p]; }
+    g_umgr.umem_alloc = stub_umem_alloc; g_umgr.umem_free = stub_umem_free;
+    g_mm.umem_mgr = &g_umgr; g_mm.align = 0;
+    g_mm.ubuf_pool.alloc_cb = stub_obj_alloc; g_mm.ubuf_pool.free_cb = stub_obj_free; g_mm.shared_pool.alloc_cb = stub_sh_alloc; g_mm.shared_pool.free_cb = stub_sh_free;
+    g_umem_live = g_obj_live = g_sh_live = 0;
+    uint8_t *w = NULL;
+#ifdef SOUND
+    g_mp[0].channel = g_names[0]; g_mm.common_mgr.sample_size = 1; g_mm.common_mgr.nb_planes = 1; g_mm.common_mgr.planes = g_mps;
+    g_mm.common_mgr.mgr.signature = UBUF_ALLOC_SOUND; g_mm.common_mgr.mgr.ubuf_control = ubuf_sound_mem_control;
+    struct ubuf *u = call_alloc(&g_mm.common_mgr.mgr, UBUF_ALLOC_SOUND, (int)sz);
+#define AW_WRITE(u_) call_ctl(u_, UBUF_WRITE_SOUND_PLANE, g_names[0], 0, -1, &w)
+#define AW_UNMAP(u_) call_ctl(u_, UBUF_UNMAP_SOUND_PLANE, g_names[0], 0, -1)
+#define AW_SHARED(u_, sh, o, z) ubuf_sound_mem_get_shared(u_, g_names[0], sh, o, z)
+#else
+    g_mp[0].chroma = g_names[0]; g_mp[0].hsub = 1; g_mp[0].vsub = 1; g_mp[0].macropixel_size = 1;
+    g_mm.hmprepend = g_mm.hmappend = g_mm.vprepend = g_mm.vappend = 0; g_mm.align_hmoffset = 0;
+    g_mm.common_mgr.macropixel = 1; g_mm.common_mgr.nb_planes = 1; g_mm.common_mgr.planes = g_mps;
+    g_mm.common_mgr.mgr.signature = UBUF_ALLOC_PICTURE; g_mm.common_mgr.mgr.ubuf_control = ubuf_pic_mem_control;
+    struct ubuf *u = call_alloc(&g_mm.common_mgr.mgr, UBUF_ALLOC_PICTURE, (int)sz, 2);
+#define AW_WRITE(u_) call_ctl(u_, UBUF_WRITE_PICTURE_PLANE, g_names[0], 0, 0, -1, -1, &w)
+#define AW_UNMAP(u_) call_ctl(u_, UBUF_UNMAP_PICTURE_PLANE, g_names[0], 0, 0, -1, -1)
+#define AW_SHARED(u_, sh, o, z) ubuf_pic_mem_get_shared(u_, g_names[0], sh, o, z)
+#endif
+    if (u != NULL) {
+        VPOST(AW_WRITE(u) == UBASE_ERR_NONE);                               /* fresh buffer: single owner */
+        AW_UNMAP(u);
+        struct ubuf_mem_shared *sh = NULL; size_t off = 0, sz2 = 0;
+        int rs = AW_SHARED(u, &sh, &off, &sz2);
+        VPOST(rs == UBASE_ERR_NONE && sh == &g_shared);
+        ubuf_mem_shared_use(sh);                                            /* a block buffer now shares the plane */
+        VPOST(AW_WRITE(u) == UBASE_ERR_BUSY);
+        bool last = ubuf_mem_shared_release(sh);
+        VPOST(!last && AW_WRITE(u) == UBASE_ERR_NONE);
+    }
+    VCANARY();
+}
 #ifdef VENTRY
 VMAIN(VENTRY)
 #endif
